@@ -201,7 +201,7 @@ func (p *IGMPv3Query) UnmarshalBinary(data []byte) error {
 	n += 1
 	p.NumberOfSources = binary.BigEndian.Uint16(data[n:])
 	n += 2
-	if len(data) < int(p.Len()) {
+	if len(data) < 12+int(p.NumberOfSources)*4 {
 		return fmt.Errorf("The []byte is too short to unmarshal a full IGMPv3Query message.")
 	}
 	for j := 0; j < int(p.NumberOfSources); j++ {
@@ -300,7 +300,7 @@ func (p *IGMPv3GroupRecord) UnmarshalBinary(data []byte) error {
 	p.MulticastAddress = make([]byte, 4)
 	copy(p.MulticastAddress, data[n:n+4])
 	n += 4
-	if len(data) < int(p.Len()) {
+	if len(data) < 8+int(p.AuxDataLen)*4+int(p.NumberOfSources)*4 {
 		return fmt.Errorf("The []byte is too short to unmarshal a full IGMPv3GroupRecord message.")
 	}
 	for i := uint16(0); i < p.NumberOfSources; i++ {
@@ -412,11 +412,14 @@ func (p *IGMPv3MembershipReport) UnmarshalBinary(data []byte) error {
 	n += 2
 	for i := uint16(0); i < p.NumberOfGroups; i++ {
 		gr := new(IGMPv3GroupRecord)
+		if n > len(data) {
+			return errors.New("The []byte is too short to unmarshal a full IGMPv3MembershipReport message.")
+		}
 		if err := gr.UnmarshalBinary(data[n:]); err != nil {
 			return err
 		}
 		p.GroupRecords = append(p.GroupRecords, *gr)
-		n += int(gr.Len())
+		n += 8 + int(gr.AuxDataLen)*4 + int(gr.NumberOfSources)*4
 	}
 	return nil
 }
